@@ -73,15 +73,20 @@ def run(case):
         # without boundary points the integrand may be non-finite on the boundary of the box
         g = drive.singular_on_boundary(g, case["a"], case["b"], (case["fseed"] // 4) % 3)
         out.cls("integrand-not-finite-on-the-excluded-boundary")
-    f = drive.vector_function([g])
+    # 1-3 output components (the interpolation code paths for several outputs differ from the scalar one)
+    comps = [g, drive.case_function(case, offset=11), (lambda x: 0.5 * g(x) - 3.0)][: 1 + case["fseed"] % 3]
+    if singular:
+        comps = [g] + [drive.singular_on_boundary(c_, case["a"], case["b"], (case["fseed"] // 4) % 3) for c_ in comps[1:]]
+    f = drive.vector_function(comps)
     sa, op = drive.build_dw(case, f)
+    out.cls("outputs=%d" % len(comps))
     st_ = dict(strict=0, raised=0, lmax=None, steps=0, maxpts=0, before=None)
 
     def on_eval(k):
         if st_["lmax"] is not None and list(sa.lmax) != st_["lmax"]:
             st_["raised"] += 1
         st_["lmax"] = list(sa.lmax)
-        n = check_scheme(out, sub, sa, case["boundary"], lambda p: [g(p)], "after evaluation %d" % k)
+        n = check_scheme(out, sub, sa, case["boundary"], lambda p: [c_(p) for c_ in comps], "after evaluation %d" % k)
         st_["maxpts"] = max(st_["maxpts"], n)
 
     def before_refine(k):
